@@ -31,13 +31,16 @@ class C02(DiffProperty):
                   "history of pushes/terminations/transport steps faults) and C02_ring_writer_stream (on a ring of any capacity/offset: transport bytes + ring "
                   "contents = the frames of the completed messages, each delivered by the decoder loop). End to end (C02_stream_end_to_end): any prefix of that stream, cut "
                   "into any pieces and fed to any sequence of decoder calls (call-level model of mpt_decode_cobs*), delivers a prefix of the sent messages in order. "
-                  "Ring level, reader (queue_recv recovery, queue_shift): "
+                  "Ring level, reader: C02_ring_reader_delivers_partial / C02_ring_to_ring_partial (every history of wire-ins and mpt_queue_recv/mpt_queue_shift/mpt_message_get steps on a "
+                  "ring of any capacity/offset delivers the reference decodings of the frames at the front of the accepted bytes, a prefix of what the ring writer sent; "
+                  "the history ends at the first decoder error incl. MissingBuffer). The MissingBuffer recovery path of queue_recv: "
                   "executable mechanism model compared with the implementation after every operation, decided against the specification 'received = sent' on "
                   "rings of many capacities/offsets with arbitrary wire cuts incl. single-byte delivery")
-    level_note = ("partial: the reader-side ring code (mpt_queue_recv, mpt_queue_shift, mpt_message_get) has an executable mechanism model compared with the "
-                  "implementation after every operation (ring offsets/lengths, decoder state, contents) but its refinement to the flat decoder calls is not a theorem; "
-                  "'everything arrives after a drain' is proved per frame at loop level only, decided for call histories by the correspondence run "
-                  "(the writer-side ring code is proved for all branches); mptio stream glue (sockets, poll) is not executed. Theorems closed under the global context.")
+    level_note = ("partial: (1) the reader-side ring theorems end at the first decoder error; the MissingBuffer recovery path of mpt_queue_recv (mpt_qpre prefix space, "
+                  "chunked move), which ZPE framings reach when a zero pair arrives with too little gap, has an executable mechanism model compared with the "
+                  "implementation after every operation (ring offsets/lengths, decoder state, contents) but no theorem; (2) 'everything arrives after a drain' is "
+                  "proved per frame at loop level only and decided for histories by the correspondence run; (3) mptio stream glue (sockets, poll) is not executed. "
+                  "The writer-side ring code is proved for all branches. Theorems closed under the global context.")
     technique = "Coq theorems: composition encoder o wire o decoder (flat level) and ring-level writer refinement (history invariant); specification-level differential check of the ring-level mechanism model"
     coq_dir = "Cobs"
     coq_deps = ("C13",)
